@@ -137,6 +137,7 @@ type RunRec struct {
 	Listing   []string `json:"listing"`        // wal/snap/checkpoint names found after the death
 	PortRetry int      `json:"port_retry"`
 	StartMs   int64    `json:"start_ms"`
+	LifeMs    int64    `json:"life_ms"` // from the start of the process to (just after) its death
 	Log       string   `json:"log,omitempty"` // tail of the child's log when the start failed
 	PowerLoss string   `json:"power_loss,omitempty"`
 }
@@ -557,6 +558,7 @@ type live struct {
 	ch    *child
 	c     *rconn
 	evlog string
+	t0    time.Time
 }
 
 // startRun starts the child for run number rec.Run and waits until it serves or is dead; fills rec.Start.
@@ -585,7 +587,7 @@ func startRun(self string, cfg *childCfg, pa *portAlloc, dir string, rec *RunRec
 		status = "timeout"
 	}
 	rec.StartMs = time.Since(t0).Milliseconds()
-	lv := &live{ch: ch, evlog: evlog}
+	lv := &live{ch: ch, evlog: evlog, t0: t0}
 	if status == "READY" {
 		rec.Start = "ready"
 		return lv
@@ -618,6 +620,7 @@ func finishRun(dir string, lv *live, rec *RunRec, emit func(RunRec)) {
 		rec.Events = hx.ReadLines(lv.evlog)
 	}
 	rec.Listing = listing(dir)
+	rec.LifeMs = time.Since(lv.t0).Milliseconds()
 	emit(*rec)
 }
 
